@@ -37,7 +37,8 @@ func c20Body(r *rand.Rand, tag int, ln int) []byte {
 		b[0] &= 0xdf // keep maximum_bitrate below 2^21 (the range the decoder is written for)
 		if r.Intn(3) == 0 {
 			bit := r.Intn(21)
-			b[0], b[1], b[2] = 0xc0|byte(1<<uint(bit)>>16), byte(1<<uint(bit)>>8), byte(1<<uint(bit))
+			v := uint32(1) << uint(bit)
+			b[0], b[1], b[2] = 0xc0|byte(v>>16), byte(v>>8), byte(v)
 		}
 	}
 	if tag == 176 && ln >= 4 {
